@@ -116,6 +116,15 @@ class odict(dict):
         """
         return self.items()
 
+    def __reduce_ex__(self, protocol):
+        """
+        Pickle protocols 0 and 1 rebuild through copyreg._reconstructor which
+        bypasses __new__ and so never creates _keys: an empty odict (falsy state
+        so __setstate__ is not called either) came back unusable.
+        Always reduce the protocol 2 way which calls __new__.
+        """
+        return super(odict, self).__reduce_ex__(max(protocol, 2))
+
     def __setstate__(self, state):
         """
         restore from state items list
